@@ -106,6 +106,10 @@ def one_subset(c, tmp, sw, sown, bs, nb, subset, pairs, metas, direct):
     from xyzpy.gen.cropping import Crop
     stale = Crop(fn=run.fn(sw), name=run.name, parent_dir=run.parent)
     ops = [("sow", sown, bs, nb), ("grow", sorted(subset))]
+    if c.rng.random() < 0.04:
+        # grown the way the cluster scripts do: grow(i, crop, num_workers=k), the cases of a batch finishing in
+        # another order than they were submitted
+        ops[1] = ("grow", sorted(subset), "function-workers")
     obs = [run.do(op) for op in ops]
     B = obs[0][1]
     member = batch_membership(run, sw)
